@@ -1,11 +1,14 @@
-"""C01 -- live relay delivers the publisher's messages intact (spec/Fanout.tla)."""
+"""C01 -- live relay delivers the publisher's messages intact (spec/Fanout.tla): RTMP / HTTP-FLV / WebSocket-FLV
+subscribers, relay-push targets (cfgs E, F) and the FLV recording."""
 from props.fanout_common import run_fanout
 
 
 def run(ctx):
     if ctx.quick:
-        run_fanout(ctx, bfs=[("B", 4, 1)], emit=[("B", 3, 1)],
-                   sim=[("A", 9, 3, 150, 16), ("Aw", 9, 3, 100, 16), ("B", 9, 2, 200, 16), ("D", 10, 2, 150, 18)])
+        run_fanout(ctx, bfs=[("B", 4, 1), ("E", 3, 2)], emit=[("B", 3, 1), ("E", 2, 1)],
+                   sim=[("A", 9, 3, 150, 16), ("Aw", 9, 3, 100, 16), ("B", 9, 2, 200, 16), ("D", 10, 2, 150, 18),
+                        ("E", 9, 3, 120, 16), ("F", 8, 2, 120, 16)])
     else:
-        run_fanout(ctx, bfs=[("B", 5, 2), ("A", 5, 2)], emit=[("B", 4, 1), ("A", 3, 2)],
-                   sim=[("A", 12, 3, 1500, 24), ("Aw", 12, 3, 800, 24), ("B", 12, 3, 2000, 24), ("D", 12, 3, 2000, 26)])
+        run_fanout(ctx, bfs=[("B", 5, 2), ("A", 5, 2), ("E", 4, 2), ("F", 4, 2)], emit=[("B", 4, 1), ("A", 3, 2), ("E", 3, 2)],
+                   sim=[("A", 12, 3, 1500, 24), ("Aw", 12, 3, 800, 24), ("B", 12, 3, 2000, 24), ("D", 12, 3, 2000, 26),
+                        ("E", 12, 3, 1000, 24), ("F", 12, 3, 1000, 24)])
